@@ -189,6 +189,36 @@ def oracle_factory(ctx):
                 if got != want:
                     return Failure("C09/pointer-stream/position", "fields around a Pointer into another stream parsed as %r, without the Pointer %r (a stream was not put back where it was) | %s" % (got, want, where))
             return None
+        if kind == "pointer-region":
+            # a Pointer inside a length-delimited body (a substream) that does not start at offset 0: a non-negative offset is an
+            # absolute offset of the real stream, a negative one counts from the end of the body; either way the body goes on as if
+            # the Pointer were not there
+            off = extra
+            body = C.Struct("a" / C.Byte, "p" / C.Pointer(off, subs[0]), "after" / C.Tell, "b" / C.Byte, "rest" / C.GreedyBytes)
+            con = C.Struct("hdr" / C.Byte, "body" / C.Prefixed(C.Byte, body), "tail" / C.Byte, "end" / C.Tell)
+            plain = C.Struct("hdr" / C.Byte, "body" / C.Prefixed(C.Byte, C.Struct("a" / C.Byte, "after" / C.Tell, "b" / C.Byte, "rest" / C.GreedyBytes)), "tail" / C.Byte, "end" / C.Tell)
+            o = call(con.parse_stream, s)
+            s2 = io.BytesIO(data)
+            s2.seek(start)
+            ref = call(plain.parse_stream, s2)
+            if not ref.ok:
+                return None
+            bstart = start + 2
+            bend = bstart + data[start + 1]
+            target = off if off >= 0 else bend + off
+            if not bstart <= target <= bend:
+                return None
+            iso_p, iso_end = iso(specs[0], data[:bend], target)     # (the body cannot see beyond its own end)
+            if iso_p.ok:
+                if not o.ok:
+                    return Failure("C09/pointer-region/rejects", "the pointed-to field parses in isolation at %d and the body parses without the Pointer, but with it parse raised %r | %s" % (target, o, where))
+                if not lib_eq(o.value.body.p, iso_p.value):
+                    return Failure("C09/pointer-region/value", "Pointer(%d) inside a body spanning [%d,%d) -> %s, isolated parse at %d -> %s | %s" % (off, bstart, bend, short(o.value.body.p), target, short(iso_p.value), where))
+                got = (o.value.body.a, o.value.body.after, o.value.body.b, o.value.body.rest, o.value.tail, o.value.end, s.tell())
+                want = (ref.value.body.a, ref.value.body.after, ref.value.body.b, ref.value.body.rest, ref.value.tail, ref.value.end, s2.tell())
+                if got != want:
+                    return Failure("C09/pointer-region/position", "fields around a Pointer inside a delimited body parsed as %r, without the Pointer %r | %s" % (got, want, where))
+            return None
         if kind in ("select", "optional"):
             con = C.Select(*subs) if kind == "select" else C.Optional(subs[0])
             o = call(con.parse_stream, s)
@@ -298,14 +328,18 @@ def oracle_factory(ctx):
 
 @st.composite
 def cases(draw):
-    kind = draw(st.sampled_from(["peek", "pointer", "pointer-stream", "select", "select", "optional", "grange", "grange", "grange-discard", "union"]))
-    specs = draw(members(1, 1 if kind in ("peek", "pointer", "pointer-stream", "optional", "grange", "grange-discard") else 3,
+    kind = draw(st.sampled_from(["peek", "pointer", "pointer-stream", "pointer-region", "select", "select", "optional", "grange", "grange", "grange-discard", "union"]))
+    specs = draw(members(1, 1 if kind in ("peek", "pointer", "pointer-stream", "pointer-region", "optional", "grange", "grange-discard") else 3,
                          foreign=kind in ("select", "optional", "grange", "grange-discard")))
     data, start = draw(inputs(specs))
     extra = None
     if kind == "pointer-stream":
         data = data[:start] + bytes([draw(st.integers(0, 9)), draw(st.integers(2, 6))]) + data[start:] + b"\x01\x02\x03\x04\x05\x06\x07"
         extra = draw(st.one_of(st.integers(0, len(data)), st.integers(-len(data), -1)))
+    if kind == "pointer-region":
+        blen = draw(st.integers(2, 12))
+        data = data[:start] + bytes([draw(st.integers(0, 9)), blen]) + (data[start:] + b"\x01\x02\x03\x04\x05\x06\x07\x08\x09\x0a\x0b\x0c")[:blen] + b"\x5a\x5b"
+        extra = draw(st.one_of(st.integers(start + 2, start + 2 + blen), st.integers(-blen, -1)))
     if kind == "pointer":
         extra = draw(st.one_of(st.integers(0, max(0, len(data))), st.integers(-max(1, len(data)), -1)))
     if kind == "union":
